@@ -147,7 +147,15 @@ func zzH_C08_step() {
 	zzverif.Reach("pre")
 	id := s.Snapshot()
 	n := 2
-	switch zzverif.Choose("op", 4) {
+	switch zzverif.Choose("op", 5) {
+	case 4: // in-place update, as teDelegationSub / recoverFromExpiredExpelling / rewardsToPool do:
+		// the live record is modified and passed as newVal together with a pre-modification copy
+		cur := s.GetValidatorByMainAddr(zzValAddr(1))
+		old := cur.PartialCopy()
+		cur.Status = 1 - cur.Status
+		cur.Expelled = !cur.Expelled
+		zzverif.Assert(s.UpdateValidator(cur, old), "in-place update accepted")
+		zzverif.Reach("updated-in-place")
 	case 0: // create a third validator
 		role := params.ValidatorRole(zzverif.U8("n.role"))
 		zzverif.Assume(role >= 1 && role <= 3)
